@@ -19,6 +19,7 @@ import (
 
 	"github.com/gopcua/opcua/ua"
 	"github.com/gopcua/opcua/uacp"
+	"github.com/gopcua/opcua/uapolicy"
 	"github.com/gopcua/opcua/uasc"
 
 	"verifharness/internal/h"
@@ -86,6 +87,29 @@ func startPeer(conn *uacp.Conn, answer func(*h.PeerChunk) bool) *peer {
 		}
 	}()
 	return p
+}
+
+// reply answers a withheld OPN request.
+func (p *peer) reply(reqID uint32) {
+	p.mu.Lock()
+	p.nextTok++
+	tok := p.nextTok
+	p.answered[reqID] = tok
+	p.mu.Unlock()
+	h.PeerSendOPNResponse(p.conn, chanID, tok, &p.seq, reqID, 3600000)
+}
+
+// opnRequests returns the request ids of the OPN request chunks seen so far.
+func (p *peer) opnRequests() []uint32 {
+	p.mu.Lock()
+	defer p.mu.Unlock()
+	var out []uint32
+	for _, c := range p.wire {
+		if c.Type == "OPN" {
+			out = append(out, c.ReqID)
+		}
+	}
+	return out
 }
 
 func (p *peer) snapshot() ([]h.PeerChunk, map[uint32]uint32) {
@@ -557,6 +581,451 @@ func (e *env) forcedAbort() {
 	e.finish(s, evs, "C11.aborted-send-burns-number")
 }
 
+// forcedOverlap: the public Renew() is called while a renewal is in progress. conditionLocker.lock() does not
+// block; the second renewal waits for the old instance's mutex; when the first one finishes its unlock()
+// opens the gate although the second renewal is still running, and the second one renews the superseded token.
+func (e *env) forcedOverlap() {
+	s := e.open("forced-overlapping-renewals", 400, 20*time.Second, false, func(*h.PeerChunk) bool { return false })
+	if s == nil {
+		return
+	}
+	defer s.stop()
+	gate := s.sc.VerifReqLocker()
+	s.sc.SendRequestWithTimeout(context.Background(), small(1), nil, 20*time.Second, nil)
+	var panicked atomic.Value
+	r1 := make(chan error, 1)
+	go func() { r1 <- renewRecover(s.sc, &panicked) }()
+	waitOPN := func(n int) bool {
+		dl := time.Now().Add(20 * time.Second)
+		for time.Now().Before(dl) {
+			if len(s.p.opnRequests()) >= n {
+				return true
+			}
+			time.Sleep(time.Millisecond)
+		}
+		return false
+	}
+	if !waitOPN(1) {
+		e.r.InfraError = s.name + ": first OPN request not seen"
+		return
+	}
+	r2 := make(chan error, 1)
+	go func() { r2 <- renewRecover(s.sc, &panicked) }()
+	nAfterWait := func() int {
+		n := 0
+		for _, ev := range s.ctl.Events() {
+			if ev.Name == "renew.afterWait" {
+				n++
+			}
+		}
+		return n
+	}
+	for dl := time.Now().Add(20 * time.Second); nAfterWait() < 2; {
+		if time.Now().After(dl) {
+			e.r.InfraError = s.name + ": second renewal did not get past pendingReq.Wait"
+			return
+		}
+		time.Sleep(time.Millisecond)
+	}
+	sd := make(chan error, 1)
+	go func() { sd <- s.sc.SendRequestWithTimeout(context.Background(), small(2), nil, 20*time.Second, nil) }()
+	if s.ctl.WaitEvent(20*time.Second, func(ev *h.SendEv) bool { return ev.Name == "cl.block" && ev.Arg(0) == gate }) == nil {
+		e.r.InfraError = s.name + ": the request did not block at the gate"
+		return
+	}
+	s.p.reply(s.p.opnRequests()[0]) // the first renewal completes: its unlock opens the gate
+	select {
+	case <-r1:
+	case <-time.After(20 * time.Second):
+		e.r.InfraError = s.name + ": first renewal did not return"
+		return
+	}
+	if !waitOPN(2) {
+		e.r.InfraError = s.name + ": second OPN request not seen"
+		return
+	}
+	select {
+	case <-sd: // the request got through while the second renewal was still waiting for its answer
+	case <-time.After(20 * time.Second):
+		e.r.Notes = append(e.r.Notes, s.name+": the request stayed blocked during the second renewal")
+	}
+	s.p.reply(s.p.opnRequests()[1])
+	select {
+	case <-r2:
+	case <-time.After(20 * time.Second):
+		e.r.InfraError = s.name + ": second renewal did not return"
+		return
+	}
+	s.sc.SendRequestWithTimeout(context.Background(), small(3), nil, 20*time.Second, nil)
+	s.p.waitWire(5, 20*time.Second)
+	evs := s.ctl.Events()
+	uasc.VerifSetHook(nil)
+	e.r.Hit("scenario:forced-overlapping-renewals")
+	if p := panicked.Load(); p != nil {
+		e.r.Notes = append(e.r.Notes, fmt.Sprintf("%s: a renewal panicked: %v", s.name, p))
+		return
+	}
+	// ---- oracle on the wire
+	wire, answered := s.p.snapshot()
+	v := h.CheckWireT(wire, nil, nil, answered, initTok)
+	var ws []string
+	for _, c := range wire {
+		ws = append(ws, c.String())
+	}
+	detail := strings.Join(ws, " | ")
+	switch {
+	case v.OK:
+		e.r.Notes = append(e.r.Notes, s.name+": not reproduced, wire consecutive: "+detail)
+	case v.Explained:
+		for _, sig := range v.Sigs {
+			e.r.Fail(s.name, sig, v.Detail+"; wire: "+detail)
+			if sig == "C11.overlapping-renewals" {
+				e.r.Confirm(sig, v.Detail+"; wire: "+detail)
+			}
+		}
+	default:
+		e.r.Fail(s.name, "", v.Detail+"; wire: "+detail)
+	}
+	// ---- the gate LTS on the recorded lock / unlock / pass events
+	ren := map[int64]int{}
+	var ls []string
+	for _, ev := range evs {
+		if ev.Arg(0) != gate {
+			continue
+		}
+		switch ev.Name {
+		case "cl.lock":
+			if _, ok := ren[ev.G]; !ok {
+				ren[ev.G] = len(ren)
+			}
+			ls = append(ls, fmt.Sprintf("rLock%d", ren[ev.G]))
+		case "cl.unlock":
+			if i, ok := ren[ev.G]; ok {
+				ls = append(ls, fmt.Sprintf("rUnlock%d", i))
+			} else {
+				ls = append(ls, "close")
+			}
+		case "cl.pass":
+			if _, ok := ren[ev.G]; !ok {
+				ls = append(ls, "pass0")
+			}
+		}
+	}
+	q := "gt " + strings.Join(ls, " ")
+	e.r.Count(q, true)
+	e.r.Sample(s.name + ": " + q + " ;; wire: " + detail)
+	if e.d != nil {
+		a := e.d.Ask(q)
+		if a == "reject" || a == "bad-op" {
+			e.r.Disagree(q, a, "gate operations of the implementation")
+		} else {
+			e.r.TracesValidated++
+			// a request passed the gate while the second renewal was in progress ⇔ badPass > 0
+			if strings.HasSuffix(a, "badPass=0") != v.OK {
+				e.r.Disagree(q+" (requests passing during a renewal)", a, fmt.Sprintf("wire ok=%v", v.OK))
+			}
+		}
+	}
+}
+
+// forcedClose: Close() while a renewal is in progress. close() unlocks the gate first thing; its own
+// CloseSecureChannelRequest then passes the gate, reads the old active instance and is numbered from the
+// stale counter once the renewal has finished (the stale-counter finding through another door).
+func (e *env) forcedClose() {
+	s := e.open("forced-close-during-renewal", 500, 20*time.Second, false, func(*h.PeerChunk) bool { return false })
+	if s == nil {
+		return
+	}
+	defer s.stop()
+	gate := s.sc.VerifReqLocker()
+	s.sc.SendRequestWithTimeout(context.Background(), small(1), nil, 20*time.Second, nil)
+	var panicked atomic.Value
+	r1 := make(chan error, 1)
+	go func() { r1 <- renewRecover(s.sc, &panicked) }()
+	for dl := time.Now().Add(20 * time.Second); len(s.p.opnRequests()) < 1; {
+		if time.Now().After(dl) {
+			e.r.InfraError = s.name + ": OPN request not seen"
+			return
+		}
+		time.Sleep(time.Millisecond)
+	}
+	cd := make(chan error, 1)
+	n0 := len(s.ctl.Events())
+	go func() { cd <- s.sc.Close() }()
+	// the CLO request is past the gate once it announces that it waits for the instance mutex
+	if s.ctl.WaitEvent(20*time.Second, func(ev *h.SendEv) bool { return ev.Name == "send.beforeLock" && ev.I >= n0 }) == nil {
+		e.r.InfraError = s.name + ": Close() did not get to send its request"
+		return
+	}
+	s.p.reply(s.p.opnRequests()[0])
+	select {
+	case <-r1:
+	case <-time.After(20 * time.Second):
+		e.r.InfraError = s.name + ": renewal did not return"
+		return
+	}
+	select {
+	case <-cd:
+	case <-time.After(20 * time.Second):
+		e.r.InfraError = s.name + ": Close() did not return"
+		return
+	}
+	s.p.waitWire(3, 20*time.Second)
+	evs := s.ctl.Events()
+	uasc.VerifSetHook(nil)
+	e.r.Hit("scenario:forced-close-during-renewal")
+	wire, answered := s.p.snapshot()
+	v := h.CheckWireT(wire, nil, nil, answered, initTok)
+	var ws []string
+	for _, c := range wire {
+		ws = append(ws, c.String())
+	}
+	detail := strings.Join(ws, " | ")
+	switch {
+	case v.OK:
+		e.r.Notes = append(e.r.Notes, s.name+": wire consecutive: "+detail)
+	case v.Explained:
+		for _, sig := range v.Sigs {
+			e.r.Fail(s.name, sig, v.Detail+"; wire: "+detail)
+		}
+		e.r.Hit("close-during-renewal:stale-number")
+	default:
+		e.r.Fail(s.name, "", v.Detail+"; wire: "+detail)
+	}
+	ren := map[int64]int{}
+	var ls []string
+	for _, ev := range evs {
+		if ev.Arg(0) != gate {
+			continue
+		}
+		switch ev.Name {
+		case "cl.lock":
+			if _, ok := ren[ev.G]; !ok {
+				ren[ev.G] = len(ren)
+			}
+			ls = append(ls, fmt.Sprintf("rLock%d", ren[ev.G]))
+		case "cl.unlock":
+			if i, ok := ren[ev.G]; ok {
+				ls = append(ls, fmt.Sprintf("rUnlock%d", i))
+			} else {
+				ls = append(ls, "close")
+			}
+		case "cl.pass":
+			if _, ok := ren[ev.G]; !ok {
+				ls = append(ls, "pass0")
+			}
+		}
+	}
+	q := "gt " + strings.Join(ls, " ")
+	e.r.Count(q, true)
+	e.r.Sample(s.name + ": " + q + " ;; wire: " + detail)
+	if e.d != nil {
+		a := e.d.Ask(q)
+		if a == "reject" || a == "bad-op" {
+			e.r.Disagree(q, a, "gate operations of the implementation")
+		} else {
+			e.r.TracesValidated++
+			if strings.HasSuffix(a, "badPass=0") != v.OK {
+				e.r.Disagree(q+" (requests passing during a renewal)", a, fmt.Sprintf("wire ok=%v", v.OK))
+			}
+		}
+	}
+}
+
+// secureClient: the random client scenario in Sign or SignAndEncrypt mode (Basic256Sha256, committed test keys)
+// against a REAL server channel: the client's events are replayed through the LTS as usual; the wire is what the
+// server channel's readChunk verified and decrypted (verifPoint recv.chunk). After a renewal the server has
+// re-keyed its one instance, so a chunk of a stale sender (finding C11.stale-counter-after-renewal) fails its
+// security check there; that is only tolerated for traces outside the guard.
+func (e *env) secureClient(seed uint64, idx int, mode ua.MessageSecurityMode) {
+	rnd := h.NewRand(seed*15485863 + uint64(idx))
+	name := fmt.Sprintf("secure-client %d %d mode=%d", seed, idx, mode)
+	a, err1 := h.LoadKey(e.o.Keys, 2048, "a")
+	b, err2 := h.LoadKey(e.o.Keys, 2048, "b")
+	if err1 != nil || err2 != nil {
+		e.r.Notes = append(e.r.Notes, fmt.Sprintf("%s: keys not available (%v %v)", name, err1, err2))
+		return
+	}
+	cli, srv, cleanup, err := h.SendLoopbackSize(8192)
+	if err != nil {
+		e.r.InfraError = "loopback: " + err.Error()
+		return
+	}
+	defer cleanup()
+	uri := ua.SecurityPolicyURIBasic256Sha256
+	ccfg := &uasc.Config{SecurityPolicyURI: uri, SecurityMode: mode, Certificate: a.CertDER, LocalKey: a.Key,
+		RemoteCertificate: b.CertDER, Thumbprint: uapolicy.Thumbprint(b.CertDER), Lifetime: 3600000, RequestTimeout: 30 * time.Second, RequestIDSeed: 100}
+	scfg := &uasc.Config{SecurityPolicyURI: uri, SecurityMode: mode, Certificate: b.CertDER, LocalKey: b.Key,
+		RemoteCertificate: a.CertDER, Thumbprint: uapolicy.Thumbprint(a.CertDER), Lifetime: 3600000, RequestTimeout: 30 * time.Second}
+	nC, nS := rnd.Bytes(32), rnd.Bytes(32)
+	base := uint32(rnd.Intn(1 << 20))
+	csc, err := uasc.VerifOpenChannel(cli, ccfg, false, chanID, initTok, base, nC, nS, make(chan error, 64))
+	if err != nil {
+		e.r.InfraError = name + ": client channel: " + err.Error()
+		return
+	}
+	ssc, err := uasc.VerifOpenServerChannel(srv, scfg, chanID, initTok, 5000, nS, nC, make(chan error, 64))
+	if err != nil {
+		e.r.InfraError = name + ": server channel: " + err.Error()
+		return
+	}
+	ctl := h.NewSendCtl()
+	uasc.VerifSetHook(ctl.Hook)
+	defer func() { uasc.VerifSetHook(nil); ctl.ReleaseAll() }()
+	csc.VerifStartDispatcher()
+	sctx, scancel := context.WithCancel(context.Background())
+	defer scancel()
+	var srvG int64 = -1
+	var secFail atomic.Int64
+	srvDone := make(chan struct{})
+	go func() { // the server's receive loop
+		defer close(srvDone)
+		srvG = h.GoID()
+		for {
+			msg := ssc.Receive(sctx)
+			if msg.Err != nil {
+				if strings.Contains(msg.Err.Error(), "SecurityChecksFailed") {
+					secFail.Add(1)
+					continue
+				}
+				return
+			}
+		}
+	}()
+	nSenders := 2 + rnd.Intn(3)
+	per := 1 + rnd.Intn(3)
+	nRenew := rnd.Intn(2)
+	var wg sync.WaitGroup
+	var errs atomic.Int64
+	var panicked atomic.Value
+	for k := 0; k < nSenders; k++ {
+		wg.Add(1)
+		chunks := make([]int, per)
+		for i := range chunks {
+			chunks[i] = 1 + rnd.Intn(3)*rnd.Intn(2)
+		}
+		go func(k int) {
+			defer wg.Done()
+			for _, c := range chunks {
+				if err := csc.SendRequestWithTimeout(context.Background(), bigReq(c, byte(k)), nil, 30*time.Second, nil); err != nil {
+					errs.Add(1)
+				}
+			}
+		}(k)
+	}
+	wg.Add(1)
+	go func() {
+		defer wg.Done()
+		for i := 0; i < nRenew; i++ {
+			if err := renewRecover(csc, &panicked); err != nil {
+				errs.Add(1)
+			}
+		}
+	}()
+	done := make(chan struct{})
+	go func() { wg.Wait(); close(done) }()
+	select {
+	case <-done:
+	case <-time.After(90 * time.Second):
+		e.r.InfraError = name + ": senders did not finish"
+		return
+	}
+	// wait until the server has read everything that was written
+	want := 0
+	for _, ev := range ctl.Events() {
+		if ev.Name == "send.chunk" {
+			want++
+		}
+	}
+	got := func() int {
+		n := int(secFail.Load())
+		for _, ev := range ctl.Events() {
+			if ev.Name == "recv.chunk" && ev.G == srvG {
+				n++
+			}
+		}
+		return n
+	}
+	for dl := time.Now().Add(30 * time.Second); got() < want && time.Now().Before(dl); {
+		time.Sleep(2 * time.Millisecond)
+	}
+	evs := ctl.Events()
+	uasc.VerifSetHook(nil)
+	cli.Close()
+	<-srvDone
+	if panicked.Load() != nil {
+		e.r.Hit("scenario:renew-panicked")
+		return
+	}
+	if errs.Load() > 0 {
+		e.r.InfraError = fmt.Sprintf("%s: %d calls failed", name, errs.Load())
+		return
+	}
+	e.r.Hit(fmt.Sprintf("scenario:secure-mode-%d", mode))
+	// the wire as the server verified it
+	var wire []h.PeerChunk
+	issued := map[uint32]uint32{}
+	for _, ev := range evs {
+		if ev.Name != "recv.chunk" || ev.G != srvG {
+			continue
+		}
+		m, ok := ev.Arg(0).(*uasc.MessageChunk)
+		if !ok || m == nil {
+			continue
+		}
+		c := h.PeerChunk{Type: m.MessageType, ChunkType: m.ChunkType, Seq: m.SequenceHeader.SequenceNumber, ReqID: m.SequenceHeader.RequestID}
+		if m.SymmetricSecurityHeader != nil {
+			c.TokenID = m.SymmetricSecurityHeader.TokenID
+		}
+		if c.Type == "OPN" {
+			issued[c.ReqID] = initTok // the gopcua server answers every renewal with the same token id
+		}
+		wire = append(wire, c)
+	}
+	var cevs []h.SendEv // the client's own events
+	for _, ev := range evs {
+		if ev.G != srvG {
+			cevs = append(cevs, ev)
+		}
+	}
+	labels, burned, truncated, _ := h.SeqLabelsT(cevs, csc.VerifReqLocker())
+	e.r.Count(name+" "+strings.Join(labels, ";"), len(wire) >= 2)
+	for _, l := range labels {
+		e.r.Hit("label:" + strings.Fields(l)[0])
+	}
+	// oracle on what the server accepted: consecutive numbers (the token id never changes on this server, so the
+	// stale classification by token does not apply: a stale chunk does not get this far, it is counted in secFail)
+	v := h.CheckWireT(wire, burned, truncated, map[uint32]uint32{}, initTok)
+	inGuard := true
+	if e.d != nil {
+		e.d.Ask(fmt.Sprintf("reset %d %d", base, initTok))
+		for i, l := range labels {
+			if l == "rLock" && e.d.Ask("guard rLock") != "in" {
+				inGuard = false
+			}
+			if a := e.d.Ask("lts " + l); a != "ok" {
+				e.r.Disagree(name, fmt.Sprintf("%s at step %d `%s` of %s", a, i, l, strings.Join(labels, ";")), "step taken by the implementation")
+				return
+			}
+		}
+		e.r.TracesValidated++
+	}
+	if inGuard {
+		e.r.Hit("secure:guard-inside")
+		if secFail.Load() > 0 {
+			e.r.Fail(name, "", fmt.Sprintf("%d chunk(s) failed the server's security check although no sender overlapped a renewal", secFail.Load()))
+		}
+		if !v.OK {
+			e.r.Fail(name, "", "inside the guard: "+v.Detail)
+		}
+	} else {
+		e.r.Hit("secure:guard-outside")
+		if secFail.Load() > 0 || !v.OK {
+			e.r.Fail(name, "C11.stale-counter-after-renewal", fmt.Sprintf("%d chunk(s) of a stale sender rejected by the re-keyed server; %s", secFail.Load(), v.Detail))
+		}
+	}
+}
+
 // forcedAbortMid: the context of a three-chunk request ends after its second chunk: the message stays
 // unfinished, the numbers drawn so far are all on the wire and the next message continues them.
 func (e *env) forcedAbortMid() {
@@ -606,14 +1075,22 @@ func (e *env) corpus() {
 		}
 		e.d.Ask("reset " + strings.TrimSpace(parts[0]))
 		res := "ok"
+		query := ""
 		for _, l := range strings.Split(parts[1], ";") {
-			if a := e.d.Ask("lts " + strings.TrimSpace(l)); a != "ok" {
+			l = strings.TrimSpace(l)
+			if strings.HasPrefix(l, "?") {
+				query = strings.TrimPrefix(l, "?")
+				break
+			}
+			if a := e.d.Ask("lts " + l); a != "ok" {
 				res = a
 				break
 			}
 		}
 		got := res
-		if res == "ok" {
+		if query != "" {
+			got = e.d.Ask(query)
+		} else if res == "ok" {
 			got = e.d.Ask("wire") + "|" + e.d.Ask("linked")
 		}
 		want := strings.TrimSpace(parts[2]) + "|" + strings.TrimSpace(parts[3])
@@ -649,6 +1126,10 @@ func main() {
 			e.forcedStale()
 		case strings.HasPrefix(o.Replay, "forced-failed"):
 			e.forcedFailedRenewal()
+		case strings.HasPrefix(o.Replay, "forced-close"):
+			e.forcedClose()
+		case strings.HasPrefix(o.Replay, "forced-overlapping"):
+			e.forcedOverlap()
 		case strings.HasPrefix(o.Replay, "forced-abort-mid"):
 			e.forcedAbortMid()
 		case strings.HasPrefix(o.Replay, "forced-aborted"):
@@ -673,6 +1154,12 @@ func main() {
 	if r.InfraError == "" {
 		e.forcedAbortMid()
 	}
+	if r.InfraError == "" {
+		e.forcedOverlap()
+	}
+	if r.InfraError == "" {
+		e.forcedClose()
+	}
 	t0 := time.Now()
 	n := o.N(120, 3000)
 	for i := 0; i < n && r.InfraError == ""; i++ {
@@ -686,9 +1173,18 @@ func main() {
 			break
 		}
 	}
-	for _, b := range []string{"label:spawn", "label:gate", "label:getActive", "label:pendAdd", "label:respGetActive", "label:lockInst", "label:newMsg", "label:write",
+	// non-None modes: the same client scenario against a real server channel
+	nSec := o.N(4, 120)
+	for i := 0; i < nSec && r.InfraError == ""; i++ {
+		mode := ua.MessageSecurityModeSign
+		if i%2 == 1 {
+			mode = ua.MessageSecurityModeSignAndEncrypt
+		}
+		e.secureClient(o.Seed, i, mode)
+	}
+	for _, b := range []string{"scenario:secure-mode-2", "scenario:secure-mode-3", "label:spawn", "label:gate", "label:getActive", "label:pendAdd", "label:respGetActive", "label:lockInst", "label:newMsg", "label:write",
 		"label:abort", "label:unlockInst", "label:pendDone", "label:rLock", "label:rWaitBegin", "label:rWaitDone", "label:rLockOld", "label:rCopy", "label:rSendOPN",
-		"label:rInstall", "label:rFail", "label:rUnlockOld", "label:rUnlock", "guard:inside", "guard:outside", "multi-chunk-message", "counter-near-wrap", "message-abandoned-mid-way", "precancelled-send-draws-no-number"} {
+		"label:rInstall", "label:rFail", "label:rUnlockOld", "label:rUnlock", "guard:inside", "guard:outside", "multi-chunk-message", "counter-near-wrap", "message-abandoned-mid-way", "precancelled-send-draws-no-number", "scenario:forced-overlapping-renewals", "close-during-renewal:stale-number"} {
 		if r.Distribution[b] == 0 {
 			r.Unreached = append(r.Unreached, b)
 		}
